@@ -10,7 +10,7 @@ from checks import c48
 META = {
     "engine": "mtest", "level": "exploration", "design_ref": "DESIGN.md §4.6 C49",
     "technique": "differential runs of the real mtest binary: one random well-posed problem solved under a covering array of (15 acceleration settings x 4 prediction policies x 4 stiffness matrix types x 4 rounding modes x sub-stepping on/off); converged result files compared column by column with a tolerance derived from @StrainEpsilon/@StressEpsilon and a stiffness estimate",
-    "text": "Random mixed-control problems on elastic, Norton (two implementations) and plasticity behaviours generated from the reference .mfront files are each solved under every row of a pairwise covering array of the solver options (quick) or the array plus 150 random rows of the full product (thorough). All runs of a problem that complete with the same accepted time steps must give the same strains, stresses and internal state variables at every output time within c.(eeps, seps): per step the distance of a converged iterate to the discrete solution is at most eeps + seps/k_min for strains and seps + 3E.(that) for stresses (k_min: smallest tangent modulus, estimated from the material and the observed stress level); these laws are non-expansive so the bound grows at most linearly with the number of steps, and c = 10 x steps is used (the evidence reports the worst spread/tolerance). Configurations that do not converge or are not supported by the behaviour are counted, not judged; runs that sub-stepped solve a different time discretisation and are compared only for the path-independent elastic behaviour.",
+    "text": "Random mixed-control problems on elastic, Norton (two implementations) and plasticity behaviours generated from the reference .mfront files are each solved under every row of a pairwise covering array of the solver options (quick) or the array plus 100 random rows of the full product, 100 problems (thorough). All runs of a problem that complete with the same accepted time steps must give the same strains, stresses and internal state variables at every output time within c.(eeps, seps): per step the distance of a converged iterate to the discrete solution is at most eeps + seps/k_min for strains and seps + 3E.(that) for stresses (k_min: smallest tangent modulus, estimated from the material and the observed stress level); these laws are non-expansive so the bound grows at most linearly with the number of steps, and c = 10 x steps is used (the evidence reports the worst spread/tolerance). Configurations that do not converge or are not supported by the behaviour are counted, not judged; runs that sub-stepped solve a different time discretisation and are compared only for the path-independent elastic behaviour.",
     "note": "Trusted: the stiffness estimate behind the tolerance (problems with E/k_min > 1e4 are skipped and counted). The 'Random' rounding mode is not used (not replayable). Energies are not compared.",
 }
 
@@ -222,9 +222,9 @@ def run(ctx, mutate=None):
     fn = factory_names()
     missing = [a for a in fn if a not in ACC]
     ctx.require(not missing, "acceleration algorithms of the factory not covered by the check: %s" % missing)
-    nprob = ctx.n(20, 150)
+    nprob = ctx.n(20, 100)
     ctx.cov["rule"] = ("case = one mtest run = (problem, configuration); problem = behaviour x hypothesis x material x mixed control x grid; "
-                       "configuration = row of a pairwise covering array over %s values (+150 random rows of the full product in thorough); "
+                       "configuration = row of a pairwise covering array over %s values (+100 random rows of the full product in thorough); "
                        "distinct = problems with >= 3 comparable converged runs" % "x".join(str(len(f)) for f in FACTORS))
     tasks = []
     pbs = []
@@ -234,7 +234,7 @@ def run(ctx, mutate=None):
         rows = pairwise(g, FACTORS)
         if ctx.thorough:
             seen = set(rows)
-            for _ in range(150):
+            for _ in range(100):
                 r = tuple(g.randrange(len(f)) for f in FACTORS)
                 if r not in seen:
                     seen.add(r)
